@@ -530,6 +530,17 @@ func rulesC17(e *Engine, r *Report) {
 				"the opener opens the link text as written: a relative target is looked up in the process's working directory - the file cannot be hashed (it is never sent) or another file of that name is hashed and sent", 1, facts...)
 		}
 	}
+	// ---------------------------------------------------------------- R17.13
+	r.Rule("R17.13", "recovery filters like the scan: Store.ShouldIgnore(file) - used at start-up to drop cached entries the current configuration excludes - judges the name as a FILE (shouldIgnore(name, false)), so that include patterns apply to it exactly as they do in the scan")
+	if fn := needFn(e, r, "R17.13", "store.(*Local).ShouldIgnore"); fn != nil {
+		ok := false
+		Instrs(fn, func(in ssa.Instruction) {
+			if rt, isRet := in.(*ssa.Return); isRet && len(rt.Results) == 1 && e.Canon(rt.Results[0]) == "call(store.(*Local).shouldIgnore)(p0, invoke(sts.File.GetName)(p1), false)" {
+				ok = true
+			}
+		})
+		r.Check(ok, "R17.13", "store.(*Local).ShouldIgnore = shouldIgnore(name, isDir=false)", e.Pos(fn.Pos()), "the recovery-time filter judges a file by the directory rules (include patterns are skipped): files the configuration now excludes are re-sent after a restart", 1)
+	}
 }
 
 // checkNoSharedAppend: a sender-private list that is appended to must not be
